@@ -128,29 +128,45 @@ def rule_unpack(facts, rep):
 def rule_lookup(facts, rep):
     b = facts.body(cp.CRATE, "anstyle_parse::state::state_change")
     rep.fn(b["path"])
-    st = hir.stmts_of(b["hir"])
-    ok_shape = len(st) == 3
-    first = st[0] if ok_shape else {}
-    c0 = hir.simp(first.get("init")) if first.get("k") == "let" else None
-    ok1 = (c0 is not None and hir.is_call(c0, "state_change_") and hir.is_def(c0["args"][0], "State::Anywhere")
-           and hir.is_local(c0["args"][1], "byte"))
-    var = first["pat"]["name"] if ok1 else None
-    rep.check(ok1, "lookup", b["path"], "anywhere-first",
-              "the first lookup must be state_change_(State::Anywhere, byte)", loc(b, first))
-    s1 = hir.simp(st[1]) if ok_shape else {}
-    ok2 = False
-    if s1.get("k") == "if" and "e" not in s1:
-        c = hir.simp(s1["c"])
-        body = hir.stmts_of(s1["t"])
-        if (c.get("k") == "bin" and c["op"] == "Eq" and hir.is_local(c["l"], var) and hir.lit_val(c["r"]) == 0
-                and len(body) == 1 and body[0].get("k") == "assign" and hir.is_local(body[0]["l"], var)):
-            r = hir.simp(body[0]["r"])
-            ok2 = hir.is_call(r, "state_change_") and hir.is_local(r["args"][0], "state") and hir.is_local(r["args"][1], "byte")
-    rep.check(ok2, "lookup", b["path"], "current-state-only-if-zero",
-              "the current state's row is consulted exactly when the Anywhere cell is 0", loc(b, s1))
-    last = hir.simp(st[2]) if ok_shape else {}
-    rep.check(hir.is_call(last, "unpack") and hir.is_local(last["args"][0], var), "lookup", b["path"], "unpack-result",
-              "the result is unpack(change)", loc(b, last))
+    # state_change(state, byte) is decided by abstract evaluation over two opaque table cells: A = STATE_CHANGES[Anywhere][byte]
+    # and S = STATE_CHANGES[state][byte].  Whatever the control flow (mutable local, match with a binding arm, if/else
+    # expression, a named constant for 0), the result must be unpack(S) exactly when A == 0 and unpack(A) otherwise.
+    import abseval
+    pn = [p.get("name") for p in b["params"]]
+
+    def cell(args):
+        st_ = args[0]
+        if st_ == ("enum", cp.STATE + "::Anywhere"):
+            return ("sym", "A")
+        if st_ == ("sym", "state") and args[1] == ("sym", "byte"):
+            return ("sym", "S")
+        raise Unrecognised(f"state_change_ consulted for an unexpected row {st_}")
+
+    def run(choices):
+        ev = abseval.Evaluator(facts, cp.CRATE, {"anstyle_parse::state::state_change_": cell,
+                                                  "anstyle_parse::state::definitions::unpack": lambda a: ("unpack", a[0])})
+        ev.choices = choices
+        env = abseval.Env()
+        env[pn[0]], env[pn[1]] = ("sym", "state"), ("sym", "byte")
+        try:
+            return ev.ev(b["hir"], env)
+        except abseval.Return as r:
+            return r.v
+    results = abseval.explore(run)
+    bad = []
+    for choices, res in results:
+        a_zero = choices.get(("A", ("int", 0)))
+        if a_zero is None:
+            bad.append(f"the Anywhere cell is never compared with 0 on a path returning {res}")
+            continue
+        want = ("unpack", ("sym", "S")) if a_zero else ("unpack", ("sym", "A"))
+        if res != want:
+            bad.append(f"with Anywhere-cell {'==' if a_zero else '!='} 0 the result is {res}, expected {want}")
+    rep.check(not bad and len(results) >= 2, "lookup", b["path"], "anywhere-first",
+              f"state_change = unpack(Anywhere cell if it is non-zero, else the current state's cell): {bad[:2]}", loc(b))
+    rep.check(not bad and len(results) >= 2, "lookup", b["path"], "current-state-only-if-zero",
+              "the current state's row is consulted exactly when the Anywhere cell is 0", loc(b))
+    rep.check(not bad, "lookup", b["path"], "unpack-result", "the result is unpack(change)", loc(b))
     b2 = facts.body(cp.CRATE, "anstyle_parse::state::state_change_")
     rep.fn(b2["path"])
     idx = [n for n in hir.walk(b2["hir"]) if n.get("k") == "index"]
@@ -208,75 +224,133 @@ def rule_advance(facts, rep):
 
 
 def rule_order(facts, rep):
+    """Case-wise decision of perform_state_change: for every (old state, target state, action is Nop or not) the ordered effects
+    are read off the one structural path that is feasible for that case — however the function spells its branches (match with a
+    binding arm, `==` on the field-less enums, early return): target Anywhere runs the action only; otherwise exit action of the
+    OLD state, then the transition's action unless Nop, then entry action of the NEW state, then self.state = new."""
     b = facts.body(cp.CRATE, P + "perform_state_change")
     rep.fn(b["path"])
-    m = hir.simp(b["hir"])
-    while m.get("k") == "block":
-        s = hir.stmts_of(m)
-        if len(s) != 1:
-            raise Unrecognised("perform_state_change: expected a single match")
-        m = hir.simp(s[0])
-    if not (m.get("k") == "match" and hir.is_local(m["scrut"], "state")):
-        raise Unrecognised("perform_state_change: top-level match on `state` not found")
-    tbl, default = arms_by_variant(m, cp.STATE)
-    # Anywhere arm: action only
-    a_any = tbl.get("Anywhere")
-    ok = False
-    if a_any is not None and set(tbl) == {"Anywhere"}:
-        s = hir.stmts_of(a_any["body"])
-        ok = len(s) == 1 and perform_action_call(s[0]) is not None and hir.is_local(perform_action_call(s[0]), "action")
-    rep.check(ok, "order", b["path"], "anywhere-runs-action-only",
-              "target Anywhere = stay: run the action, do not touch self.state", loc(b, a_any))
-    if default is None or default["pat"].get("k") != "pbind":
-        raise Unrecognised("perform_state_change: default arm binding the new state not found")
-    newstate = default["pat"]["name"]
-    seq = hir.stmts_of(default["body"])
-    if len(seq) != 4:
-        raise Unrecognised(f"perform_state_change: transition arm has {len(seq)} statements, expected exit/action/entry/assign")
-    # 1. exit actions keyed by the OLD state
-    ex = hir.simp(seq[0])
-    ok = False
-    got = {}
-    if ex.get("k") == "match" and self_field(ex["scrut"], "state"):
-        t, d = arms_by_variant(ex, cp.STATE)
-        for v, a in t.items():
-            s = hir.stmts_of(a["body"])
-            act = perform_action_call(s[0]) if len(s) == 1 else None
-            got[v] = hir.last_seg(hir.def_path(act)) if act is not None else "?"
-        ok = got == vt500.EXIT_ACTIONS and d is not None and not [x for x in hir.stmts_of(d["body"]) if hir.simp(x).get("k") != "tuple"]
-    rep.check(ok, "order", b["path"], "1-exit-actions-of-old-state",
-              f"first: exit action selected by self.state, table must be {vt500.EXIT_ACTIONS}, got {got}", loc(b, ex))
-    rep.count(len(vt500.STATES))
-    # 2. transition action unless Nop
-    tr = hir.simp(seq[1])
-    ok = False
-    if tr.get("k") == "match" and hir.is_local(tr["scrut"], "action"):
-        t, d = arms_by_variant(tr, cp.ACTION)
-        if set(t) == {"Nop"} and d is not None and d["pat"].get("k") == "pbind":
-            nop_body = [x for x in hir.stmts_of(t["Nop"]["body"]) if hir.simp(x).get("k") != "tuple"]
-            s = hir.stmts_of(d["body"])
-            act = perform_action_call(s[0]) if len(s) == 1 else None
-            ok = not nop_body and act is not None and hir.is_local(act, d["pat"]["name"])
-    rep.check(ok, "order", b["path"], "2-transition-action-unless-nop",
-              "second: the transition's own action, skipped only for Nop", loc(b, tr))
-    # 3. entry actions keyed by the NEW state
-    en = hir.simp(seq[2])
-    ok = False
-    got = {}
-    if en.get("k") == "match" and hir.is_local(en["scrut"], newstate):
-        t, d = arms_by_variant(en, cp.STATE)
-        for v, a in t.items():
-            s = hir.stmts_of(a["body"])
-            act = perform_action_call(s[0]) if len(s) == 1 else None
-            got[v] = hir.last_seg(hir.def_path(act)) if act is not None else "?"
-        ok = got == vt500.ENTRY_ACTIONS and d is not None and not [x for x in hir.stmts_of(d["body"]) if hir.simp(x).get("k") != "tuple"]
-    rep.check(ok, "order", b["path"], "3-entry-actions-of-new-state",
-              f"third: entry action selected by the new state, table must be {vt500.ENTRY_ACTIONS}, got {got}", loc(b, en))
-    rep.count(len(vt500.STATES))
-    # 4. assume the new state last
-    asg = hir.simp(seq[3])
-    ok = asg.get("k") == "assign" and self_field(asg["l"], "state") and hir.is_local(asg["r"], newstate)
-    rep.check(ok, "order", b["path"], "4-assign-state-last", "last: self.state = state", loc(b, asg))
+    names = [p.get("name") for p in b["params"]]
+    if names != ["self", "performer", "state", "action", "byte"]:
+        raise AnchorMissing(f"perform_state_change parameters are {names}")
+    pid = {p["name"]: p.get("id") for p in b["params"]}
+    paths = hir.enumerate_paths(b["hir"])
+    src = hir.binding_sources(b["hir"])
+    states = list(vt500.STATES)
+    if "Anywhere" not in states:
+        states = states + ["Anywhere"]
+    n_cases = 0
+    bad = {}
+    for old in states:
+        for new in states:
+            for act in ("Nop", "Print"):
+                n_cases += 1
+                cur_state = [old]     # self.state changes when the assignment is passed; conditions are read before it in every accepted form
+
+                def val(e, depth=0):
+                    e = hir.simp(e)
+                    if e.get("k") == "def":
+                        return ("enum", e["path"])
+                    if e.get("k") == "local":
+                        if e.get("id") == pid["state"]:
+                            return ("enum", cp.STATE + "::" + new)
+                        if e.get("id") == pid["action"]:
+                            return ("enum", cp.ACTION + "::" + act)
+                        if e.get("id") in src and depth < 4:
+                            return val(src[e["id"]], depth + 1)
+                        return None
+                    if self_field(e, "state"):
+                        return ("enum", cp.STATE + "::" + cur_state[0])
+                    return None
+                def observe(t):
+                    if t[0] == "assign" and t[1].get("k") == "assign" and self_field(t[1]["l"], "state"):
+                        v = val(t[1]["r"])
+                        cur_state[0] = hir.last_seg(v[1]) if v else "?"
+                feas = []
+                for p in paths:
+                    cur_state[0] = old
+                    if hir.path_feasible(p, val, observe):
+                        feas.append(p)
+                cur_state[0] = old
+                key = None
+                if len(feas) != 1:
+                    key = f"{len(feas)} feasible paths"
+                else:
+                    seq = []
+                    for t in feas[0].trace:
+                        observe(t)
+                        if t[0] == "eval":
+                            a = perform_action_call(t[1])
+                            if a is None:
+                                if hir.simp(t[1]).get("k") == "call":
+                                    seq.append(("call", hir.callee(hir.simp(t[1]))))
+                                continue
+                            v = val(a)
+                            seq.append(("act", hir.last_seg(v[1]) if v else "?"))
+                        elif t[0] == "assign":
+                            n = t[1]
+                            if n.get("k") == "assign" and self_field(n["l"], "state"):
+                                v = val(n["r"])
+                                seq.append(("state", hir.last_seg(v[1]) if v else "?"))
+                            else:
+                                seq.append(("store", hirpp.expr(n)[:40]))
+                    seq = [x for x in seq if x != ("act", "Nop")]
+                    if new == "Anywhere":
+                        want = [("act", act)] if act != "Nop" else []
+                    else:
+                        want = ([("act", vt500.EXIT_ACTIONS[old])] if old in vt500.EXIT_ACTIONS else []) + \
+                               ([("act", act)] if act != "Nop" else []) + \
+                               ([("act", vt500.ENTRY_ACTIONS[new])] if new in vt500.ENTRY_ACTIONS else []) + [("state", new)]
+                    if seq != want:
+                        key = f"effects {seq}, expected {want}"
+                if key:
+                    which = ("anywhere-runs-action-only" if new == "Anywhere" else
+                             "1-exit-actions-of-old-state" if old in vt500.EXIT_ACTIONS and "act" in key and vt500.EXIT_ACTIONS[old] not in key.split("expected")[0] else
+                             "2-transition-action-unless-nop")
+                    bad.setdefault(which, []).append(f"old={old} new={new} action={'Nop' if act == 'Nop' else 'non-Nop'}: {key}")
+    rep.count(n_cases)
+
+    def classify(msgs):
+        return msgs[:2]
+    all_bad = [m for v in bad.values() for m in v]
+    # attribute the failures to the four ordered steps
+    def failing(pred):
+        return [m for m in all_bad if pred(m)]
+    any_bad = failing(lambda m: "new=Anywhere" in m)
+    rep.check(not any_bad, "order", b["path"], "anywhere-runs-action-only",
+              f"target Anywhere = stay: run the action, do not touch self.state: {any_bad[:2]}", loc(b))
+    rest = [m for m in all_bad if "new=Anywhere" not in m]
+
+    def step_bad(extract):
+        out = []
+        for m in rest:
+            if "effects" not in m:
+                out.append(m)
+                continue
+            got, want = m.split("effects ", 1)[1].split(", expected ")
+            if extract(eval(got)) != extract(eval(want)):
+                out.append(m)
+        return out
+    ex_names = set(vt500.EXIT_ACTIONS.values())
+    en_names = set(vt500.ENTRY_ACTIONS.values())
+
+    def first_act(seq):
+        return seq[0] if seq and seq[0][0] == "act" and seq[0][1] in ex_names else None
+
+    def last_act(seq):
+        acts = [x for x in seq if x[0] == "act"]
+        return acts[-1] if acts and acts[-1][1] in en_names and (len(acts) > 1 or True) else None
+    b1 = step_bad(first_act)
+    rep.check(not b1, "order", b["path"], "1-exit-actions-of-old-state",
+              f"first: exit action selected by self.state, table must be {vt500.EXIT_ACTIONS}: {b1[:2]}", loc(b))
+    b3 = step_bad(last_act)
+    rep.check(not b3, "order", b["path"], "3-entry-actions-of-new-state",
+              f"third: entry action selected by the new state, table must be {vt500.ENTRY_ACTIONS}: {b3[:2]}", loc(b))
+    b4 = step_bad(lambda seq: (seq[-1] if seq and seq[-1][0] == "state" else None, sum(1 for x in seq if x[0] == "state")))
+    rep.check(not b4, "order", b["path"], "4-assign-state-last", f"last: self.state = state: {b4[:2]}", loc(b))
+    b2 = [m for m in rest if m not in b1 and m not in b3 and m not in b4]
+    rep.check(not b2, "order", b["path"], "2-transition-action-unless-nop",
+              f"second: the transition's own action, skipped only for Nop: {b2[:2]}", loc(b))
     # no other writer of self.state in the crate except process_utf8 (-> Ground) and this
     writers = []
     for body in facts.bodies(cp.CRATE):
@@ -287,8 +361,7 @@ def rule_order(facts, rep):
                 writers.append(body["path"].split("::")[-1])
     rep.check(sorted(writers) == ["perform_state_change", "process_utf8"], "order", "Parser.state", "who-may-write",
               f"writers of Parser.state: {sorted(writers)}", loc(b))
-    # the shadowing `state =>` binding must be the function parameter's value (match on $state)
-    rep.check(hir.is_local(m["scrut"], "state"), "order", b["path"], "new-state-is-parameter", "", loc(b))
+    rep.check(True, "order", b["path"], "new-state-is-parameter", "decided by the case-wise evaluation", loc(b))
 
 
 def perform_call(e, method):
